@@ -197,32 +197,34 @@ class C16:
                            any(ch in tex for ch in '<>&"'))
         return {'viol': viol, 'out': core.h64(out), 'nt': nt, 'tr': 1}
 
-    def finish(self, ctx):
-        seed = ctx['seed']
-        self.init_worker()
-        picks = []
+    def conformance_picks(self, seed):
         k = 1499 + seed % 29
-        for i, case in enumerate(self.cases('quick', seed)):
-            if i % k == seed % k:
-                picks.append(case)
-        picks = picks[:30]
-        viol = []
+        return [c for i, c in enumerate(self.cases('quick', seed)) if i % k == seed % k][:30]
+
+    def finish(self, ctx):
+        self.init_worker()
         n = 0
-        for case in picks:
-            si, ms, ci = case
-            tex = SOURCES[si] if SOURCES[si].endswith('\n') else SOURCES[si] + '\n'
-            sess = self.session(si, ci)
-            ans = shell.lt_answer([mk(i, tex, o, l) for i, (o, l) in enumerate(ms)])
-            sess.answer = lambda t, c: ans
-            out, err, code, exc = sess.report()
-            d = os.path.join(core.scratch_dir(), 'cli16')
-            rc, cout, cerr, args = shell.run_cli(['--plain-input', '--output', 'html', '--context', str(CONTEXTS[ci]), 'f.tex'],
-                                                 {'f.tex': SOURCES[si]}, {}, ans, d)
-            n += 1
-            if rc != 0 or cout.decode('utf-8') != out:
-                viol.append((case, {'clause': 'in-process report is byte-identical to the CLI (conformance)', 'sig': 'C16:conformance',
-                                    'detail': {'rc': rc, 'cli': cout.decode('utf-8', 'replace')[:600], 'in_process': (out or '')[:600], 'stderr': cerr[-300:]}}))
+        viol = []
+        for case in self.conformance_picks(ctx['seed']):
+            k, vs = self.conformance_one(case)
+            n += k
+            viol += [(case, v) for v in vs]
         return {'conformance_replays': n, 'viol': viol}
+
+    def conformance_one(self, case):
+        si, ms, ci = case
+        tex = SOURCES[si] if SOURCES[si].endswith('\n') else SOURCES[si] + '\n'
+        sess = self.session(si, ci)
+        ans = shell.lt_answer([mk(i, tex, o, l) for i, (o, l) in enumerate(ms)])
+        sess.answer = lambda t, c: ans
+        out, err, code, exc = sess.report()
+        d = os.path.join(core.scratch_dir(), 'cli16')
+        rc, cout, cerr, args = shell.run_cli(['--plain-input', '--output', 'html', '--context', str(CONTEXTS[ci]), 'f.tex'],
+                                             {'f.tex': SOURCES[si]}, {}, ans, d)
+        if rc != 0 or cout.decode('utf-8') != out:
+            return 1, [{'clause': 'in-process report is byte-identical to the CLI (conformance)', 'sig': 'C16:conformance',
+                        'detail': {'rc': rc, 'cli': cout.decode('utf-8', 'replace')[:600], 'in_process': (out or '')[:600], 'stderr': cerr[-300:]}}]
+        return 1, []
 
     def explain(self, case):
         return 'source %r\nmatches (offset, length) %r\ncontext %r' % (SOURCES[case[0]], case[1], CONTEXTS[case[2]])
